@@ -23,6 +23,7 @@ from vx.harness import vyxal
 RULE = ("exhaustive enumeration of a finite domain: 256 code-page positions, all byte strings "
         "and code-page texts of length<=2, every table key and every yaml entry; every case is "
         "distinct by construction; non-trivial = table keys, yaml entries and multi-byte strings")
+WHOLE_DOMAIN_FINITE = True
 ASSUMPTIONS = [
     "elements.yaml is read with a hand-written reader for the YAML subset the file uses (PyYAML is not installed)",
     "'reachable' is decided through the public pipeline tokenise -> parse -> transpile, not by running the element",
